@@ -5,6 +5,10 @@ use std::sync::atomic::{AtomicU64, Ordering};
 static COUNTER: AtomicU64 = AtomicU64::new(0);
 
 pub fn root() -> PathBuf {
+    root_for_pid(std::process::id())
+}
+
+pub fn root_for_pid(pid: u32) -> PathBuf {
     let base = if let Ok(t) = std::env::var("VERIF_TMP") {
         PathBuf::from(t)
     } else if Path::new("/dev/shm").is_dir() {
@@ -12,7 +16,7 @@ pub fn root() -> PathBuf {
     } else {
         std::env::temp_dir()
     };
-    base.join(format!("pv-{}", std::process::id()))
+    base.join(format!("pv-{}", pid))
 }
 
 pub struct TmpDir {
